@@ -260,6 +260,36 @@ int main(int argc, char **argv)
             maxd = 255; root = (d & 1) ? 'A' : 'O'; kind = d < 8 ? 0 : 2;
             gen_deep(&x, root, DD[d], (d % 4) >= 2);
         }
+        else if (d < 18) {   /* array chains below several object levels, elements at the bottom (every run) */
+            static const int MX[8][2] = {{2, 253}, {2, 254}, {3, 253}, {2, 127}, {2, 128}, {2, 129}, {1, 200}, {3, 100}};
+            maxd = 255; root = (d & 1) ? 'A' : 'O'; kind = 0;
+            gen_deep_mixed(&x, root, MX[d - 10][0], MX[d - 10][1]);
+        }
+        else if (d < 27) {   /* long-name family (every run): {"a":1, <L x 'c'>:"x", "d":2}, read by name with the optional-field idiom */
+            static const size_t LL[9] = {127, 128, 32767, 32768, 65530, 65531, 65535, 65536, 70000};
+            size_t L = LL[d - 18]; uint8_t *ln = (uint8_t *) malloc(L + 1); memset(ln, 'c', L);
+            uint8_t a = 'a', dd = 'd', sx = 'x';
+            x.n = 0; bb_byte(&x, 0x40); enc_blob(&x, 0x14, &a, 1); enc_int(&x, 0x10, 1); enc_blob(&x, 0x14, ln, L); enc_blob(&x, 0x14, &sx, 1);
+            enc_blob(&x, 0x14, &dd, 1); enc_int(&x, 0x10, 2); bb_byte(&x, 0x41);
+            maxd = 3; root = 'O'; kind = 0;
+            uint8_t *doc = (uint8_t *) malloc(x.n); memcpy(doc, x.b, x.n);
+            free(st); st = (binson_state *) malloc((size_t) maxd * sizeof *st); memset(p, 0, sizeof *p); memset(st, 0, (size_t) maxd * sizeof *st);
+            p->max_depth = (uint_fast8_t) maxd; p->state = st; cur_maxd = maxd;
+            int ret = binson_parser_init_object(p, doc, x.n);
+            fprintf(OUTF, "{\"e\":\"I\",\"root\":\"O\",\"maxd\":%d,\"fill\":0,\"reuse\":0,\"valid\":1", maxd);
+            ev_bytes("buf", doc, x.n);
+            fprintf(OUTF, ",\"ret\":%d,\"err\":%d}\n", ret, (int) p->error_flags); nevents++;
+            track_t t; memset(&t, 0, sizeof t); t.fresh = true;
+            call_op(p, doc, x.n, "io", NULL, 0, 0, &t);
+            call_op(p, doc, x.n, "f", &a, 1, 0, &t);
+            call_op(p, doc, x.n, "f", ln, L - 1, 0, &t);          /* absent, sorts just before the long name */
+            call_op(p, doc, x.n, (d & 1) ? "f" : "n", ln, L, 0, &t);   /* the long-named field: by name or by next */
+            call_op(p, doc, x.n, "n", NULL, 0, 0, &t);            /* "d" */
+            call_op(p, doc, x.n, "n", NULL, 0, 0, &t);            /* end */
+            call_op(p, doc, x.n, "lo", NULL, 0, 0, &t);
+            free(ln); free(doc);
+            continue;
+        }
         else if (rng_chance(&r, 1, 12)) gen_deep(&x, root, (int) (rng_chance(&r, 1, 2) ? maxd + (int) rng_below(&r, 3) - 1 : 254 + (int) rng_below(&r, 3)), rng_chance(&r, 1, 2));
         else gen_doc(&g, &x, root, maxd > 12 ? 12 : maxd + 1);
         int valid_gen = 1;
@@ -276,9 +306,11 @@ int main(int argc, char **argv)
         fprintf(OUTF, ",\"ret\":%d,\"err\":%d}\n", ret, (int) p->error_flags); nevents++;
         /* every document is verified first (C02 on every random / mutated document); a successful
          * verify leaves a fresh parser, so the walk below is unaffected */
-        { track_t t0; memset(&t0, 0, sizeof t0); t0.fresh = true; call_op(p, doc, x.n, "v", NULL, 0, 0, &t0); }
-        walk(&g, p, doc, x.n, root, kind == 2, d < 10 ? (d < 8 ? -2 : 8) : (kind != 2 && rng_chance(&r, 1, 3)) ? -1 : 4 + (int) rng_below(&r, 60));
-        if (kind == 0 && (d < 10 || rng_chance(&r, 1, 2)) && binson_parser_reset(p)) {   /* the nesting-limit documents always */   /* C10: decode-then-encode must reproduce the document */
+        { track_t t0; memset(&t0, 0, sizeof t0); t0.fresh = true; call_op(p, doc, x.n, "v", NULL, 0, 0, &t0);
+          /* a generated (valid) document that verify refuses: reset, so that the walk below is judged on its own */
+          if (valid_gen && p->error_flags != BINSON_ERROR_NONE) call_op(p, doc, x.n, "rs", NULL, 0, 0, &t0); }
+        walk(&g, p, doc, x.n, root, kind == 2, d < 10 ? (d < 8 ? -2 : 8) : d < 18 ? -1 : (kind != 2 && rng_chance(&r, 1, 3)) ? -1 : 4 + (int) rng_below(&r, 60));
+        if (kind == 0 && (d < 18 || rng_chance(&r, 1, 2)) && binson_parser_reset(p)) {   /* the nesting-limit documents always */   /* C10: decode-then-encode must reproduce the document */
             int xr = transcribe_doc(p, doc, x.n, root); fprintf(OUTF, "{\"e\":\"xc\",\"ret\":%d}\n", xr); nevents++;
         }
         if (rng_chance(&r, 1, 3)) {           /* second pass on the same object after reset/verify (C12) */
